@@ -3,7 +3,7 @@ import re
 
 from ..cfgq import Scope, returned_nodes, bool_taken
 from ..dataflow import consumption, uses_of
-from ..exprs import ExprBuilder, strip, short_callee, show, leaf_name, walk
+from ..exprs import ExprBuilder, strip, short_callee, show, leaf_name, walk, origin_desc
 from ..facts import AnalysisError
 from ..mir import callee_name, pl_local
 from .. import tables as TB
@@ -183,6 +183,27 @@ def run(ctx):
         ctx.violation("c18.keyword", "c18.keyword|coverage", "block types without keyword: %s (such blocks cannot be parsed)" % missing, fs.loc())
     else:
         ctx.ok("c18.keyword", "c18.keyword|coverage", "all %d block types have exactly one keyword" % len(variants), fs.loc())
+
+    # ---------------- D0 value typing: a value is a number exactly when the float parser accepts it
+    ins = prog.find("hulc::bdl::common::AttrMap::insert")
+    isc = Scope(prog, ins)
+    nsites = 0
+    for b, i, st in ins.body.statements():
+        if st["s"] == "assign" and st["rv"]["r"] == "agg" and st["rv"].get("adt", "").endswith("common::BdlValue") and st["rv"].get("variant") == "Number":
+            nsites += 1
+            node = isc.rvalue(st["rv"])
+            payload = origin_desc(strip(node[3][0]))
+            conds = [(strip(c), tk) for (_, d, c, tk) in isc.conditions(b)]
+            extra = [show(c)[:80] for c, tk in conds if not (c[0] == "discr" and "parse(" in show(c))]
+            okp = "parse(" in payload and payload.endswith("@Ok.0") and ("parse(v)" in payload or "parse(deref(v))" in payload or "parse(v" in payload)
+            if okp and not extra:
+                ctx.ok("c18.lex", "c18.lex|number", "a value is stored as Number exactly when str::parse::<f32> accepts the whole value", ins.loc(st.get("ln")))
+            elif extra:
+                ctx.violation("c18.lex", "c18.lex|number", "a value the float parser accepts is stored as a number only if also %s: numbers written in a form that this extra "
+                              "test rejects (e.g. a signed exponent) are kept as strings and typed fields fall back to their defaults" % " and ".join(extra), ins.loc(st.get("ln")))
+            else:
+                ctx.violation("c18.lex", "c18.lex|number", "Number payload is %s, expected the result of parsing the whole value" % payload, ins.loc(st.get("ln")))
+    ctx.require(nsites == 1, "AttrMap::insert: expected one BdlValue::Number construction, found %d" % nsites)
 
     # ---------------- D2
     bb = prog.find("hulc::bdl::blocks::build_blocks")
